@@ -33,6 +33,7 @@ T_REGIONS = ["tiny", "small", "band", "mid", "nearpi", "nearpi_close", "exact_pi
 REGIONS = {"t:" + r: 40 for r in T_REGIONS}
 REGIONS["triple"] = 100
 REGIONS["whole"] = 40
+REGIONS_FIXED = {"long": 1}
 PROBES = [("ahrs.utils.metrics", f) for f in MATRIX + QUAT] + [("ahrs.common.dcm", "DCM.log")]
 REQUIRED_PROBES = ["metrics." + f for f in MATRIX + QUAT] + ["dcm.DCM.log"]
 RULE = ("pair cases: q1 Haar-random, q2 = q1 * (axis, t) with the relative angle t drawn per region: 1e-4..1e-3, 1e-3..1e-2, 1e-3..2e-2 "
@@ -84,6 +85,8 @@ def generate(rng, tier, shard, nshards):
         else:
             b, c = gens.unit(rng), gens.unit(rng)
         yield Case("triple", "triple", a=a, b=b, c=c)
+    if shard == 0:     # one long recording per run: ten minutes at 100 Hz compared row by row
+        yield Case("long", "long", N=20000 if tier == "quick" else 60000, t=float(rng.uniform(0.2, 2.5)), seed=int(rng.integers(2**31)))
     for i in range(gens.budget(60, tier, nshards)):
         yield Case("whole", "whole", i=int(rng.integers(len(WHOLE_Q))), j=int(rng.integers(len(WHOLE_Q))), rows=int(rng.integers(1, 4)))
 
@@ -218,5 +221,37 @@ def check_triple(case, ctx):
             ctx.le("triangle inequality d(a,c) <= d(a,b) + d(b,c)", ac - ab - bc, 1e-7 if name in ("qcip", "qad") else 1e-12, {"ac": ac, "ab": ab, "bc": bc}, route=name)
 
 
+def check_long(case, ctx):
+    """A long N-row call: the same closed forms, and resources that grow with N, not N^2 (traced peak memory below 4 kB per row: a quadratic
+    intermediate would need 3 GB at N = 20 000 and a MemoryError on an ordinary machine for a ten-minute recording)."""
+    import tracemalloc
+    from ahrs.utils import metrics as M
+    N, t = int(case.p["N"]), float(case.p["t"])
+    r_ = np.random.Generator(np.random.PCG64(int(case.p["seed"])))
+    Q1 = r_.standard_normal((N, 4))
+    Q1 /= np.linalg.norm(Q1, axis=1)[:, None]
+    ax = r_.standard_normal((N, 3))
+    ax /= np.linalg.norm(ax, axis=1)[:, None]
+    d = np.c_[np.full(N, np.cos(t / 2)), ax * np.sin(t / 2)]
+    Q2 = np.array([Q1[:, 0] * d[:, 0] - Q1[:, 1] * d[:, 1] - Q1[:, 2] * d[:, 2] - Q1[:, 3] * d[:, 3],
+                   Q1[:, 0] * d[:, 1] + Q1[:, 1] * d[:, 0] + Q1[:, 2] * d[:, 3] - Q1[:, 3] * d[:, 2],
+                   Q1[:, 0] * d[:, 2] - Q1[:, 1] * d[:, 3] + Q1[:, 2] * d[:, 0] + Q1[:, 3] * d[:, 1],
+                   Q1[:, 0] * d[:, 3] + Q1[:, 1] * d[:, 2] - Q1[:, 2] * d[:, 1] + Q1[:, 3] * d[:, 0]]).T
+    closed = {name: float(CLOSED[name](t)) for name in ("qdist", "qeip", "qcip", "qad")}       # t below pi: the closed forms in the relative angle
+    for name in ("qdist", "qeip", "qcip", "qad"):
+        fn = getattr(M, name)
+        r = name + "[batch]"
+        tracemalloc.start()
+        out = call(lambda: np.asarray(fn(Q1.copy(), Q2.copy()), float))
+        peak = tracemalloc.get_traced_memory()[1]
+        tracemalloc.stop()
+        if not ctx.returned(out, clause="no-exception[%d rows]" % N, route=r):
+            continue
+        if ctx.ok("a long N-row call returns one distance per row", out.value.shape == (N,), {"shape": list(out.value.shape), "N": N}, route=r):
+            ctx.le("distances of a long N-row call equal the closed form of the relative angle", float(np.abs(out.value - closed[name]).max()), 1e-7 if name in ("qcip", "qad") else 1e-12,
+                   {"N": N, "t": t}, route=r)
+        ctx.le("traced peak memory of an N-row call stays below 4 kB per row (linear in N)", peak / float(N), 4096.0, {"N": N, "peak_bytes": int(peak)}, route=r)
+
+
 def check(case, ctx):
-    {"pair": check_pair, "triple": check_triple, "whole": check_whole}[case.route](case, ctx)
+    {"pair": check_pair, "triple": check_triple, "whole": check_whole, "long": check_long}[case.route](case, ctx)
